@@ -470,6 +470,8 @@ def run(ctx):
             net2["nsteps"] = 3
             real_ray_pair(ctx, net2)
         variant = VARIANTS[(i * ctx.nshards + ctx.shard) % len(VARIANTS)] if ctx.quick else rng.choice(VARIANTS)
+        if i == 1:
+            variant = "split_calls"      # forced once per shard: a manoeuvre on the boundary at which the run is split
         if os.environ.get("VERIF_C10_VARIANT"):  # development aid: drive one variant only
             variant = os.environ["VERIF_C10_VARIANT"]
         if variant in ("extra_target_static", "fewer_targets_static", "target_added_by_event", "target_removed_by_event", "exec_order_reverse", "exec_order_random") and rng.random() < 0.6:
